@@ -145,9 +145,27 @@ def main_c08(tier):
         ck.add_tlc(r, "EmuMC/%s (%s)" % (cfg, name))
         if r.violated:
             ck.violation("model %s violates %s" % (cfg, r.violated), {"tlc.out": r.out[-20000:]})
-        emuhist.conformance(ck, bdir, g, tier, limit_quick=700, limit_thorough=None, label="C08/" + name,
+        # (the Nanos6 instance also has two tasks whose execution nests on the subsystem stack: larger sample)
+        emuhist.conformance(ck, bdir, g, tier, limit_quick=2500 if name == "nanos6" else 700, limit_thorough=None,
+                            label="C08/" + name,
                             pairs=150 if tier == "quick" else 5000, pair_same=emuhist.same_category)
     ck.phase("transition_cover")
+    # task execution on the subsystem stack, spelled out: a task body is a region like any other (Nanos6: a
+    # second task may begin inside a region of the first without pausing it; nOS-V: only after a pause)
+    def J(m, a):
+        return {"th": 1, "m": m, "mc": m[0], "a": a, "j": True}
+    X, E = ev(1, "OHx", [0, 101, 7]), ev(1, "OHe")
+    n6 = [X, J("6Yc", [1, 5]), ev(1, "6Tc", [1, 1]), ev(1, "6Tc", [2, 1]), ev(1, "6Tx", [1])]
+    nested = [
+        n6 + [ev(1, "6U["), ev(1, "6Tx", [2]), ev(1, "6Te", [2]), ev(1, "6U]"), ev(1, "6Te", [1]), E],
+        n6 + [ev(1, "6Tx", [2]), ev(1, "6Te", [2]), ev(1, "6Te", [1]), E],
+        n6 + [ev(1, "6C["), ev(1, "6Tx", [2]), ev(1, "6C]"), ev(1, "6Te", [2]), ev(1, "6Te", [1]), E],   # leaves across the task
+        n6 + [ev(1, "6U["), ev(1, "6Tp", [1]), ev(1, "6Tx", [2]), ev(1, "6Te", [2]), ev(1, "6Tr", [1]), ev(1, "6U]"),
+              ev(1, "6Te", [1]), E],
+        n6 + [ev(1, "6U["), ev(1, "6Tx", [2]), ev(1, "6U]"), ev(1, "6Te", [2]), ev(1, "6Te", [1]), E],
+    ]
+    run_extra(ck, bdir, sys1({"O", "6"}), nested, "C08/nested-tasks/nanos6")
+    ck.phase("nested_tasks")
     npairs = 0
     for model in ("nodes", "mpi", "tampi", "openmp", "nosv", "nanos6", "kernel"):
         mt = emuhist.model_table()[model]
